@@ -13,6 +13,8 @@ Part A  binary format, EVERY environment (table, constants):
   relax_terminates            FULL     the shrinking loop reaches its fixpoint within the model's fuel
   relax_terminates_and_fits   FULL     … and at the fixpoint no varint offset is narrower than its placeholder
   encode_errors               FULL     `encode` never fails with `fuel` / `placeholder`
+  layout_fixpoint             FULL     the sizes `encode` chose are a fixpoint of the shrinking rule and every varint branch
+                                       immediate has exactly the varint length of its displacement
   encode_canon                FULL     the assembler's output is canonical (`Canon`: minimal header, minimal varuints and
                                        varints, the layout the relaxation chooses)
   canon_unique                FULL     two canonical encodings of one program are equal
@@ -143,6 +145,29 @@ theorem encode_errors (env : Env) (v : Nat) (is : List Instr) (h1 : ∀ i ∈ is
       simp only [Except.error.injEq] at h
       subst h
       exact hp h2
+
+/-- FULL (`layout_fixpoint`). Whenever the back end produces bytes, the branch sizes it chose are a fixpoint of the
+    shrinking rule — one more round of findBranchSizes changes no placeholder — and every varint branch immediate of the
+    raw program is written in exactly the varint length of its displacement under those sizes (no placeholder is left wider
+    than the offset, so no stray byte follows a branch). A loop that stops before the fixpoint is not this model. -/
+theorem layout_fixpoint (env : Env) (v : Nat) (is : List Instr) (bs : Bytes) (h : encodeBody env v is = .ok bs) :
+    ∃ xs rs, relax (env.initWidth * is.length + 1) (is.map (fun i => (i, env.initWidth))) = .ok xs ∧
+      widthsOf (relaxStep xs) = widthsOf xs ∧ resolve v env.backBranchVersion xs = .ok rs ∧ bs = encRaw rs ∧
+      ∀ r ∈ rs, ∀ im ∈ r.imms, ∀ o w, im = RImm.voff o w → w = needed o := by
+  unfold encodeBody at h
+  cases h1 : relax (env.initWidth * is.length + 1) (is.map (fun i => (i, env.initWidth))) with
+  | error x => simp [h1] at h
+  | ok xs =>
+    simp only [h1] at h
+    cases h2 : resolve v env.backBranchVersion xs with
+    | error x => simp [h2] at h
+    | ok rs =>
+      simp only [h2, Except.ok.injEq] at h; subst h
+      refine ⟨xs, rs, rfl, relax_fix _ _ _ h1, h2, rfl, ?_⟩
+      intro r hr im him o w e
+      have := resolveGo_min h2 r hr im him
+      subst e
+      exact this
 
 /-! ### canonical form -/
 
